@@ -172,6 +172,35 @@ fn case(rng: &mut Rng, pool: &Pool, rep: &mut Report, case_no: u64) {
                 _ => {}
             }
         }
+        // between setup rounds the dispatcher is used: a dispatch that completes, or one in which
+        // a system (ordinary, thread-local, inside a batch) panics - the caller catches it. Every
+        // system is still there for the next setup and for dispose.
+        if round < rounds && rng.chance(1, 2) {
+            let victim = if rng.chance(2, 3) && !uids.is_empty() { Some(uids[rng.below(uids.len())].0) } else { None };
+            if let Some(v) = victim {
+                ctx.inject[v as usize].store(INJ_PANIC_RUN, SeqCst);
+            }
+            ctx.set_mode(Mode::Quiet);
+            let seq = rng.chance(1, 3);
+            let r = catch_unwind(AssertUnwindSafe(|| {
+                if seq {
+                    disp.dispatch_seq(&world);
+                    disp.dispatch_thread_local(&world);
+                } else {
+                    disp.dispatch(&world);
+                }
+            }));
+            ctx.set_mode(Mode::Build);
+            if let Some(v) = victim {
+                ctx.inject[v as usize].store(INJ_NONE, SeqCst);
+            }
+            let _ = crate::sys::take_pool_panics();
+            let _ = ctx.take_violations();
+            if r.is_err() {
+                rep.metric("dispatches_that_panicked_between_setups", 1);
+            }
+            history.push(format!("dispatch{} ({})", if seq { "_seq + thread-local" } else { "" }, if r.is_err() { "panicked, caught" } else { "completed" }));
+        }
         // interleave inserts / removes between setup rounds
         if round < rounds {
             for _ in 0..rng.range(0, 4) {
@@ -276,6 +305,53 @@ fn case_async(rng: &mut Rng, pool: &Pool, rep: &mut Report, case_no: u64) {
         if n != 1 {
             rep.violation("async_setup_count", &format!("AsyncDispatcher::setup: {} u{} set up {} times", what, u, n), case_no, J::obj().set("plan", plan.to_json()));
             break;
+        }
+    }
+    // the dispatcher is used (every resource exists now), a thread-local system may panic in
+    // `wait` - the caller catches it - and setup is called again: it still reaches everything
+    if rng.chance(1, 2) {
+        for s in Slot::all() {
+            if !ad.world().has_value_raw(s.rid()) {
+                insert_slot(ad.world_mut(), s, 0xfeed_1000 + s.0 as u64);
+            }
+        }
+        let tls = plan.tls();
+        let victim = if rng.chance(2, 3) && !tls.is_empty() { Some(tls[rng.below(tls.len())].uid) } else { None };
+        if let Some(v) = victim {
+            ctx.inject[v as usize].store(INJ_PANIC_RUN, SeqCst);
+        }
+        ctx.set_mode(Mode::Quiet);
+        ad.dispatch();
+        let r = catch_unwind(AssertUnwindSafe(|| ad.wait()));
+        ctx.set_mode(Mode::Build);
+        if let Some(v) = victim {
+            ctx.inject[v as usize].store(INJ_NONE, SeqCst);
+        }
+        let _ = ctx.take_violations();
+        if r.is_err() {
+            rep.metric("async_waits_that_panicked_between_setups", 1);
+        }
+        if victim.is_none() && r.is_err() {
+            // nothing was injected: not this property's business
+            rep.metric("other_property_findings", 1);
+            return;
+        }
+        let r2 = catch_unwind(AssertUnwindSafe(|| ad.setup()));
+        if let Err(p) = r2 {
+            rep.violation("setup_panicked", &format!("AsyncDispatcher::setup after a {} dispatch panicked: {}", if r.is_err() { "panicking" } else { "completed" }, payload_str(&*p)), case_no, J::obj().set("plan", plan.to_json()));
+            return;
+        }
+        for (u, what) in all_uids(&plan) {
+            let n = ctx.setups[u as usize].load(SeqCst);
+            if n != 2 {
+                rep.violation(
+                    if n < 2 { "setup_missed" } else { "setup_repeated" },
+                    &format!("AsyncDispatcher: after two setup calls (a dispatch+wait {} in between) the {} u{} has been set up {} times", if r.is_err() { "in which a thread-local system panicked" } else { "that completed" }, what, u, n),
+                    case_no,
+                    J::obj().set("plan", plan.to_json()),
+                );
+                break;
+            }
         }
     }
     for (i, s) in Slot::all().enumerate() {
